@@ -122,6 +122,14 @@ func errHandled(g *eng.Graph, call *ast.CallExpr, failOK func(*eng.GNode) bool) 
 	default:
 		return errVerdict{false, fmt.Sprintf("unrecognised idiom at `%s`", eng.Short(p.Fset, node.Node))}
 	}
+	// the error may be handed on through plain copies (the result temporaries of an inlined helper): for the
+	// structural first pass a test or return of any variable of that copy chain counts; what the test *does* is
+	// decided by the second, valuation-sensitive pass, which follows the copies exactly
+	sameErr := func(o types.Object) bool { return o == errVar }
+	if body := eng.BodyOf(g); body != nil {
+		alias := copyAliases(info, body)
+		sameErr = func(o types.Object) bool { return o != nil && (o == errVar || alias(o, errVar)) }
+	}
 	// nil-tests of errVar: edges with an (in)equality fact between errVar and nil
 	isTestEdge := func(e *eng.GEdge) (nonNil bool, ok bool) {
 		for _, f := range g.EdgeFacts(e) {
@@ -129,7 +137,7 @@ func errHandled(g *eng.Graph, call *ast.CallExpr, failOK func(*eng.GNode) bool) 
 			if !isEq {
 				continue
 			}
-			if (eng.SelObj(info, x) == errVar && eng.IsNil(info, y)) || (eng.SelObj(info, y) == errVar && eng.IsNil(info, x)) {
+			if (sameErr(eng.SelObj(info, x)) && eng.IsNil(info, y)) || (sameErr(eng.SelObj(info, y)) && eng.IsNil(info, x)) {
 				return !eq, true
 			}
 		}
@@ -202,7 +210,7 @@ func errHandled(g *eng.Graph, call *ast.CallExpr, failOK func(*eng.GNode) bool) 
 		if !ok || len(ret.Results) == 0 {
 			return false
 		}
-		return eng.SelObj(info, ret.Results[len(ret.Results)-1]) == errVar
+		return sameErr(eng.SelObj(info, ret.Results[len(ret.Results)-1]))
 	}
 	reach := g.Reach(eng.Query{From: []*eng.GNode{node}, AvoidNode: func(n *eng.GNode) bool { return isTestNode(n) || overwrites(n) || returnsVar(n) }, NoFlags: true})
 	tested := false
